@@ -250,6 +250,14 @@ func runC17(c *litCtx, it *Item) {
 			return
 		}
 		verif.Reach(kind + "-info")
+		if kind == "prefix" {
+			// a literal marked complete is by itself an entire match
+			for i := 0; i < seq.Len(); i++ {
+				if l := seq.Get(i); l.Complete {
+					verif.Assert(c.std.Match(l.Bytes), "C17 a prefix literal is flagged complete but is not a match of the pattern")
+				}
+			}
+		}
 		ok := false
 		for i := 0; i < seq.Len() && !ok; i++ {
 			l := seq.Get(i).Bytes
